@@ -13,4 +13,32 @@ CHECKS = {
    text="Weekday successor law, yearday range and nearest-weekday laws are TLC invariants over every day of the cycle; every real call (each cycle day in thorough, replicated at 19 eras out to the int64 year limits) is validated against them.",
    note=_TB + "eras are a fixed list of 19 (mod-400-aligned) base years."),
 }
+_ZB = ("Trusted base: TLC 1.8; the TLA+ modules Wide, Gregorian, PosixTZ, TZif, Zone (the specification is the only oracle: it decodes the "
+       "very bytes the library was given); the harness encoders (tzgen.py, JSON/limb writer); ASan+UBSan(trap) as observers. Functional "
+       "answers are demanded only for zones satisfying Zone!WellFormed (the property's premise). ")
+_ZT = ("TLA+ spec (TZif!Decode + Zone) model-checked by TLC on exhaustively enumerated small-world zones (MCZone) whose spec-computed answers are "
+       "replayed into the real code, + TLC trace validation (ZoneTrace) of calls on shipped and generated real-range zones at spec-generated (GenPanel) and chain-derived instants")
+CHECKS.update({
+ "C01": dict(level="model_checking", technique=_ZT + " [Break/Load events]",
+   text="Every lookup(t) of the real library on 170 (quick) / 2100 (thorough) zone files is compared by TLC with Zone!Break evaluated on the decoded bytes, at every sampled transition +-2 s, the rule seam, 400-year shifts out to time_point::max(); all small-world zones are replayed exhaustively.",
+   note=_ZB + "Instants are sampled panels, not all 2^64."),
+ "C02": dict(level="model_checking", technique=_ZT + " [Make events; preimage-count definition]",
+   text="Zone!Make is defined by counting the instants that display cs; MCZone checks that definition against brute-force counting and the header inequalities on every small zone (limits inside the window), and every lookup(cs) of the real code on the civil panels (every second of short gaps/overlaps, edges of long ones, seam and shifted years, civil_second::min/max) is validated against it.",
+   note=_ZB),
+ "C03": dict(level="model_checking", technique=_ZT + " [RT/RT2 relation events + direct relation check on all small-world zones]",
+   text="Round trip both ways is a TLC invariant of the specification on small worlds and is asserted directly on the real answers (RT, RT2 events; every instant of every small-world zone in replay_zone).",
+   note=_ZB),
+ "C06": dict(level="model_checking", technique=_ZT + " [Convert events on sorted civil panels; order carried as trace-spec state]",
+   text="Order preservation is a TLC invariant on small worlds; on real zones the trace spec carries the previous (cs, result) of the zone as state and rejects any decrease, besides comparing each result with Zone!Convert.",
+   note=_ZB),
+ "C10": dict(level="model_checking", technique=_ZT + " [limit panels; ub flag of every call under ASan+UBSan-trap; saturation in Zone!Make]",
+   text="Totality = every event of the limit panels (min/max +-2, +-2^59, +-2^31, outermost 2 days hourly, 400-year multiples, civil_second::min/max and the years just outside the reachable range) must carry ub=0 and the clamped answers Zone!Make prescribes; MCZone places TMin/TMax/BigBang inside the window.",
+   note=_ZB + "Memory-safety/UB clause is observation by sanitizers on the explored inputs (exploration level for that clause)."),
+ "C11": dict(level="model_checking", technique=_ZT + " [Next/Prev events, full forward/backward chains with chain bookkeeping as trace-spec state]",
+   text="next/prev_transition answers are compared with the real changes the specification derives from the bytes (no-ops, big-bang entry, isdst-only and abbreviation-only changes included); complete chains from min() and max() must enumerate the same set; small-world zones replay every t.",
+   note=_ZB + "Beyond the recorded data the spec demands exactness for 399 years and otherwise only that every reported transition is a real rule change (where the enumeration stops is unspecified)."),
+ "C14": dict(level="model_checking", technique=_ZT + " [history panels: every hint bracket set by one query, then probes, validated by history-free operators]",
+   text="The specification's operators take no history argument; the driver forces the hidden hint into each bracket (and long random call sequences) and every answer must still equal the history-free specification.",
+   note=_ZB + "Name-cache clause (repeat loads, failed names) is covered with C13/C20 by the Loader model."),
+})
 NOT_APPLICABLE = {}
